@@ -2112,6 +2112,51 @@ func (ex *Exec) binop(s *astate, fr *aframe, x *ssa.BinOp) AVal {
 				}
 			}
 		}
+		// x >= 2^k (x < 2^k) when no bit of x above k can be set is bit k of x (its complement)
+		if !signed || (l.Bits[lw-1].Kind == BZero && r.Bits[lw-1].Kind == BZero) {
+			bitTest := func(xb BitVec, k uint64, geq bool) (AVal, bool) {
+				if k == 0 || k&(k-1) != 0 {
+					return AVal{}, false
+				}
+				pos := 0
+				for v := k; v > 1; v >>= 1 {
+					pos++
+				}
+				for i := pos + 1; i < len(xb); i++ {
+					if xb[i].Kind != BZero {
+						return AVal{}, false
+					}
+				}
+				if pos >= len(xb) || xb[pos].Kind != BSrc {
+					return AVal{}, false
+				}
+				b := xb[pos]
+				if !geq {
+					b = notBit(b)
+				}
+				return AVal{K: AInt, Bits: BitVec{b}}, true
+			}
+			if rc {
+				switch x.Op {
+				case token.GEQ:
+					if v, ok := bitTest(l.Bits, rk, true); ok {
+						return v
+					}
+				case token.LSS:
+					if v, ok := bitTest(l.Bits, rk, false); ok {
+						return v
+					}
+				case token.GTR:
+					if v, ok := bitTest(l.Bits, rk+1, true); ok {
+						return v
+					}
+				case token.LEQ:
+					if v, ok := bitTest(l.Bits, rk+1, false); ok {
+						return v
+					}
+				}
+			}
+		}
 		// unsigned (or provably non-negative) value with known zero high bits against a constant
 		if !signed || (l.Bits[lw-1].Kind == BZero && r.Bits[lw-1].Kind == BZero) {
 			maxOf := func(b BitVec) uint64 {
@@ -2239,6 +2284,9 @@ func termBit(t string) Bit {
 	fmt.Sscanf(t[k+1:], "%d", &idx)
 	return Bit{Kind: BSrc, Src: t[:k], Idx: idx}
 }
+
+// IteBit is the exported form of the if-conversion merge c ? a : b.
+func IteBit(c, a, b Bit) Bit { return iteBit(c, a, b) }
 
 // iteBit is c ? a : b  =  b ^ c&(a^b).
 func iteBit(c, a, b Bit) Bit {
